@@ -38,7 +38,7 @@ from sexp import Sym
 
 GLOBAL_DT_BASE = 0xba5eda7adef500000000000000000000
 SAME_AS = GLOBAL_DT_BASE + 7
-POPULATED = ['PE_PE', 'EP_PKG', 'C_C', 'S_DT', 'S_CDT', 'S_EDT', 'S_ENUM', 'S_UDT', 'S_SDT', 'S_IRDT',
+POPULATED = ['PE_PE', 'EP_PKG', 'EP_PKGREF', 'C_C', 'S_DT', 'S_CDT', 'S_EDT', 'S_ENUM', 'S_UDT', 'S_SDT', 'S_IRDT',
              'O_OBJ', 'O_ATTR', 'O_BATTR', 'O_NBATTR', 'O_DBATTR', 'O_RATTR', 'O_REF', 'O_RTIDA', 'O_OIDA', 'O_ID',
              'R_REL', 'R_SIMP', 'R_FORM', 'R_PART', 'R_ASSOC', 'R_AONE', 'R_AOTH', 'R_ASSR', 'R_SUBSUP', 'R_SUPER',
              'R_SUB', 'R_COMP', 'R_OIR', 'R_RGO', 'R_RTO']
@@ -64,13 +64,61 @@ def tables():
     return _TABLES
 
 
+class RawRow(object):
+    """one INSERT statement as written: attribute = column value (uuids as integers)"""
+
+    def __init__(self, table, values):
+        cols = tables()[table]
+        # a row written for another version of the schema (fewer / more values than columns): what is there, in order
+        for i, (name, _) in enumerate(cols):
+            setattr(self, name, values[i] if i < len(values) else None)
+
+
+class RawPopulation(object):
+    """the rows of .xtuml text, read by the harness's own statement reader (no pyxtuml loader, no links: a referential
+    column holds what the file says).  Offers `select_many(kind)` in file order, which is all `decode` uses - so the
+    diagram of a real model is computed from the INPUT FILE, not from the population the library loaded."""
+    _STMT = re.compile(r"INSERT\s+INTO\s+(\w+)\s+VALUES\s*\(", re.I)
+    _VALUE = re.compile(r"""\s*(?:'((?:[^']|'')*)'|"([0-9a-fA-F-]{36})"|(-?\d+\.\d+)|(-?\d+))\s*([,)])""", re.S)
+
+    def __init__(self, *texts):
+        self.rows = {}
+        for text in texts:
+            pos = 0
+            while True:
+                m = self._STMT.search(text, pos)
+                if not m:
+                    break
+                pos, values = m.end(), []
+                while True:
+                    v = self._VALUE.match(text, pos)
+                    if not v:
+                        raise ValueError('unreadable value in an INSERT INTO %s near %r' % (m.group(1), text[pos:pos + 40]))
+                    if v.group(1) is not None:
+                        values.append(v.group(1).replace("''", "'"))
+                    elif v.group(2) is not None:
+                        values.append(uuid.UUID(v.group(2)).int)
+                    elif v.group(3) is not None:
+                        values.append(float(v.group(3)))
+                    else:
+                        values.append(int(v.group(4)))
+                    pos = v.end()
+                    if v.group(5) == ')':
+                        break
+                if m.group(1) in tables():
+                    self.rows.setdefault(m.group(1), []).append(RawRow(m.group(1), values))
+
+    def select_many(self, kind):
+        return list(self.rows.get(kind, []))
+
+
 def predefined_dts():
-    """the S_DT rows of bridgepoint.schema.globals (always loaded by gen_sql_schema / gen_xsd_schema)"""
+    """the S_DT rows of bridgepoint.schema.globals (always loaded by gen_sql_schema / gen_xsd_schema), read from the
+    text of the globals by the harness's own statement reader"""
     global _PREDEF
     if _PREDEF is None:
-        from bridgepoint import ooaofooa
-        m = ooaofooa.load_metamodel(None, load_globals=True)
-        d = decode(m)
+        from bridgepoint import schema
+        d = decode(RawPopulation(schema.globals))
         _PREDEF = [dict(t, predef=True) for t in d['dts']]
         assert len(_PREDEF) >= 6 and not d['classes'] and not d['containers']
     return [dict(t) for t in _PREDEF]
@@ -121,6 +169,8 @@ def rows_of(d):
         else:
             rows.append(('EP_PKG', [k['id'], 0, 0, k['name'], '', 0]))
             pe(k['id'], 7, k['parent'])
+    for referring, referred in d.get('pkgrefs', []):
+        rows.append(('EP_PKGREF', [referring, referred]))
     for t in d['dts']:
         if t.get('predef'):
             continue
@@ -439,6 +489,8 @@ def decode(m):
                                 'parent': _parent_of(m, k.Package_ID, pe_by_id)})
     for k in sel('C_C'):
         d['containers'].append({'comp': True, 'id': k.Id, 'name': k.Name, 'parent': _parent_of(m, k.Id, pe_by_id)})
+    for x in sel('EP_PKGREF'):
+        d.setdefault('pkgrefs', []).append([x.Referring_Package_ID, x.Referred_Package_ID])
     cdt = {x.DT_ID: x for x in sel('S_CDT')}
     edt = {x.DT_ID: x for x in sel('S_EDT')}
     udt = {x.DT_ID: x for x in sel('S_UDT')}
@@ -568,6 +620,7 @@ def normal_diagram(d):
                             sorted([i['num'], sorted(i['attrs'])] for i in c['idents']), par(c['parent'])]
                            for c in d['classes']), key=repr),
         'rels': [],
+        'pkgrefs': sorted(map(list, d.get('pkgrefs', []))),
     }
     # every relationship row by row (a regular relationship and the same one given by its rows compare equal); the
     # Obj_ID of an end is read through R_OIR -> O_OBJ: an end of a class that does not exist reads None
@@ -674,17 +727,23 @@ def _find(items, key, val):
     return None
 
 
-def py_contained(d, root, parent):
-    """is a PE_PE with this parent inside the component `root` (walk up, bounded)"""
-    for _ in range(len(d['containers']) + 2):
-        if not parent:
-            return False
-        k = next((k for k in d['containers'] if k['comp'] == (parent[0] == 'comp') and k['id'] == parent[1]), None)
-        if k is None:
-            return False                # a Package_ID / Component_ID that names no row is no container
-        if parent[0] == 'comp' and parent[1] == root:
-            return True
-        parent = k['parent']
+def py_contained(d, root, parent, depth=0):
+    """is a PE_PE with this parent inside the component `root`: walk up the containment; the elements of a package are
+    also inside wherever a package REFERRING to it (EP_PKGREF, R1402) lies.  Bounded (acyclic populations only)."""
+    if not parent or depth > 2 * len(d['containers']) + 2:
+        return False
+    k = next((k for k in d['containers'] if k['comp'] == (parent[0] == 'comp') and k['id'] == parent[1]), None)
+    if k is None:
+        return False                    # a Package_ID / Component_ID that names no row is no container
+    if parent[0] == 'comp':
+        return parent[1] == root or py_contained(d, root, k['parent'], depth + 1)
+    if py_contained(d, root, k['parent'], depth + 1):
+        return True
+    for referring, referred in d.get('pkgrefs', []):
+        if referred == parent[1]:
+            q = next((c for c in d['containers'] if not c['comp'] and c['id'] == referring), None)
+            if q is not None and py_contained(d, root, q['parent'], depth + 1):
+                return True
     return False
 
 
@@ -1310,7 +1369,8 @@ KLS = ['A', 'B', 'C', 'D', 'E', 'F', 'G', 'H', 'Dog', 'Cat', 'Owner', 'Leash', '
 
 def gen_diagram(rng, max_classes=5, special_names=False, ensure_bare=False, ensure_unsupported=False,
                 ensure_empty_name=False, ensure_dangling_parent=False, empty_enum=False, loose_attrs=False,
-                dup_type_names=False, twin_idents=False, dup_key_letters=False, dup_rel_numbers=False):
+                dup_type_names=False, twin_idents=False, dup_key_letters=False, dup_rel_numbers=False,
+                core_named_types=False):
     """a random well-formed class diagram; returns the diagram.  Every identifier is fresh (one counter)."""
     counter = [0]
 
@@ -1372,6 +1432,25 @@ def gen_diagram(rng, max_classes=5, special_names=False, ensure_bare=False, ensu
         if rng.random() < p or (ensure_unsupported and flavour == 'irdt' and nm == 'inst_ref<Node>'):
             d['dts'].append({'id': nid(), 'name': nm, 'kind': ['other'], 'flavour': flavour, 'parent': some_parent(0.2),
                              'predef': False})
+    named_like_core = []
+    if core_named_types:
+        # user data types, enumerations and structured types that carry the NAME of a core type (any letter case) while
+        # their own mapping is another one: a type is mapped by what it IS (R17 subtype, R18 base), never by its name
+        cores = [t for t in d['dts'] if t['kind'][0] == 'core' and 1 <= t['kind'][1] <= 5]
+        for nm in rng.sample(['Real', 'Unique_ID', 'Boolean', 'STRING', 'String', 'integer', 'REAL', 'boolean', 'unique_id',
+                              'Integer'], rng.randint(2, 3)):
+            x = rng.random()
+            if x < 0.3 and nm.upper() != 'INTEGER':
+                kind, flavour = ['enum', 'lo', 'hi'], None
+            elif x < 0.45:
+                kind, flavour = ['other'], 'sdt'
+            else:
+                kind, flavour = ['user', rng.choice([c for c in cores if c['name'].upper() != nm.upper()])['id']], None
+            t = {'id': nid(), 'name': nm, 'kind': kind, 'parent': some_parent(0.2), 'predef': False}
+            if flavour:
+                t['flavour'] = flavour
+            d['dts'].append(t)
+            named_like_core.append(t)
     supported = [t for t in d['dts'] if py_dt_type(d, t['id'])]
     unsupported = [t for t in d['dts'] if not py_dt_type(d, t['id'])]
 
@@ -1406,6 +1485,11 @@ def gen_diagram(rng, max_classes=5, special_names=False, ensure_bare=False, ensu
                 add_attr(c, ['base', rng.choice(unsupported)['id']])
             else:
                 add_attr(c, ['base', rng.choice(supported)['id']])
+        for t in named_like_core:
+            if rng.random() < 0.5:
+                add_attr(c, ['base', t['id']])
+        if named_like_core and rng.random() < 0.5:
+            prim[0]['kind'] = ['base', rng.choice([t for t in named_like_core if py_dt_type(d, t['id'])] or supported)['id']]
         c['idents'].append({'num': 0, 'attrs': [a['id'] for a in prim]})
         if twin_idents and rng.random() < 0.6:
             # a second identifier over exactly the same attributes (possibly listed in the other order)
@@ -1571,6 +1655,47 @@ def gen_diagram(rng, max_classes=5, special_names=False, ensure_bare=False, ensu
     rng.shuffle(d['classes'])
     rng.shuffle(d['rels'])
     return d
+
+
+def add_package_references(rng, d, fresh, to_global=True):
+    """a copy of `d` with one package reference (a second one could close a cycle through two components): a fresh (empty) package inside a component that REFERS to a package
+    outside that component.  Returns (diagram, [names of the components that gained content]) - or (d, []) when nothing fits."""
+    import copy
+    d = copy.deepcopy(d)
+    comps = [k for k in d['containers'] if k['comp']]
+    gained = []
+    for _ in range(1):
+        if not comps:
+            break
+        c = rng.choice(comps)
+        pkgs = [k for k in d['containers'] if not k['comp'] and not py_contained(d, c['id'], k['parent'])
+                and not _encloses(d, k, c) and (to_global or not py_global(d, ['pkg', k['id']]))]
+        pkgs = [k for k in pkgs if any(x['parent'] == ['pkg', k['id']] for x in d['classes'] + d['dts'] + d['rels'] + d['containers'])] or pkgs
+        if not pkgs:
+            continue
+        p = rng.choice(pkgs)
+        host = rng.choice([['comp', c['id']]] + [['pkg', k['id']] for k in d['containers']
+                                                 if not k['comp'] and py_contained(d, c['id'], k['parent'])])
+        stub = {'comp': False, 'id': fresh(), 'name': 'Ref_to_%s' % p['name'], 'parent': host}
+        d['containers'].append(stub)
+        d.setdefault('pkgrefs', []).append([stub['id'], p['id']])
+        gained.append(c['name'])
+    return d, gained
+
+
+def _encloses(d, pkg, comp):
+    """does package `pkg` lie on the containment chain of component `comp` (a reference to it would be cyclic)"""
+    p = comp['parent']
+    for _ in range(len(d['containers']) + 2):
+        if not p:
+            return False
+        if p == ['pkg', pkg['id']]:
+            return True
+        k = next((k for k in d['containers'] if k['comp'] == (p[0] == 'comp') and k['id'] == p[1]), None)
+        if k is None:
+            return False
+        p = k['parent']
+    return False
 
 
 def comp_choices(d):
